@@ -816,7 +816,8 @@ mod tests {
 // Verification hook: in-module harnesses (they need this module's private items) live outside the repository.
 // Compiled only by `cargo kani` (cfg(kani)) or with `--cfg emit_rs_emit_verif`.
 #[cfg(any(kani, emit_rs_emit_verif))]
-mod verif_incrate {
+#[doc(hidden)]
+pub mod verif_incrate {
     #![allow(unused)]
     use super::*;
     include!(concat!(env!("EMIT_RS_EMIT_VERIF_DIR"), "/kani/incrate/batcher.rs"));
